@@ -106,7 +106,7 @@ def run(ctx):
     mods = core.number_modules()
     names = [n for n, m in mods.items() if hasattr(m, 'compact') and n not in EXCLUDED]
     n = ctx.q(250, 5000)
-    args = [{'shard': name, 'mod': name, 'n': n, 'npool': ctx.q(150, 3000), 'seed': ctx.seed, 'known': ctx.known_buckets} for name in names]
+    args = [{'shard': name, 'mod': name, 'n': n, 'npool': ctx.q(1000, 5000), 'seed': ctx.seed, 'known': ctx.known_buckets} for name in names]
     res = core.run_shards(shard, args)
     res.notes['modules'] = len(names)
     res.notes['modules_with_few_pairs'] = [k for k, v in res.notes.get('pairs_per_module', {}).items() if v < n * 0.2]
